@@ -217,15 +217,13 @@ Section WithCustom.
 Variable custom : custom_parser.
 
 Lemma run_deser_rows_enc ncols rc rows r :
-  (match ncols with 0 => rows = [] | _ =>
-     lenN rows = rc /\ Forall (fun row => lenN row = ncols /\ Forall wf_cell row) rows end) ->
+  (ncols = 0 -> rows = []) ->
+  (ncols <> 0 -> lenN rows = rc /\ Forall (fun row => lenN row = ncols /\ Forall wf_cell row) rows) ->
   run (deser_rows ncols rc) (flat_map enc_row rows ++ r) = Ok (rows, r).
 Proof.
-  intros W. unfold deser_rows. destruct (ncols =? 0) eqn:E.
-  - apply N.eqb_eq in E. subst. subst rows. reflexivity.
-  - apply N.eqb_neq in E. assert (W' : lenN rows = rc /\ Forall (fun row => lenN row = ncols /\ Forall wf_cell row) rows)
-      by (destruct ncols; [congruence|exact W]).
-    destruct W' as [<- F]. apply run_repeatN_enc.
+  intros W0 W1. unfold deser_rows. destruct (ncols =? 0) eqn:E.
+  - apply N.eqb_eq in E. rewrite (W0 E). reflexivity.
+  - apply N.eqb_neq in E. destruct (W1 E) as [<- F]. apply run_repeatN_enc.
     + eapply Forall_impl; [|exact F]. intros row [Hl Hc] r'. unfold deser_row, enc_row. subst ncols.
       apply run_repeatS_enc. eapply Forall_impl; [|exact Hc]. intros c Hw r''. apply run_read_bytes_opt_enc.
       destruct c; exact Hw.
@@ -261,7 +259,7 @@ Proof.
     subst cols. cbn [app]. rt. cbn [fst snd lenN Datatypes.length].
     assert (mid = None) as -> by (destruct mid as [x|]; [destruct Hmid as [-> _]; discriminate|reflexivity]).
     destruct chg; [discriminate|]. cbn [cs_table]. change (N.of_nat 0) with 0.
-    rewrite (run_deser_rows_enc 0 rc rows) by exact Hrows. subst rows. reflexivity.
+    rewrite (run_deser_rows_enc 0 rc rows); [subst rows; reflexivity|intros _; exact Hrows|congruence].
   - destruct Hcols as (Hlen & Wcols & Hg). rewrite <- !app_assoc. rt.
     assert (Emid : forall r', run (if chg then pmap Some read_short_bytes else ret None)
                       (match mid with Some id => enc_short_bytes id | None => [] end ++ r') = Ok (mid, r')).
@@ -283,8 +281,8 @@ Proof.
     rt. cbn [fst snd].
     rewrite (run_deser_rows_enc (lenN cols) rc rows).
     + reflexivity.
-    + destruct cols as [|c0 cols']; [cbn; exact Hrows|]. rewrite lenN_cons.
-      destruct (lenN cols' + 1) eqn:E; [lia|]. rewrite <- E. rewrite <- lenN_cons. exact Hrows.
+    + intros E0. apply lenN_0 in E0. subst cols. exact Hrows.
+    + intros E0. destruct cols as [|c0 cols']; [rewrite lenN_nil in E0; congruence|exact Hrows].
 Qed.
 
 End WithCustom.
